@@ -257,3 +257,21 @@ Proof.
   intros Hchk Hcost Hbal Hbig. pose proof (sspF_spec pb tf Hchk Hcost Hbal) as H.
   destruct (sspF tf pb) as [x|e]; [exists x; split; [reflexivity|exact H]|]. destruct H as [_ H]. contradiction.
 Qed.
+
+(* a feasible plan exists only when total demand <= total capacity, so that hypothesis is implied by [ssp pb = Ok x] *)
+Lemma feasible_balanced pb x : pb_feasible pb x -> total_demand pb <= total_capacity pb.
+Proof.
+  intros (Hs & Hl & _). unfold total_demand, total_capacity. rewrite !zsuml_zsum.
+  fold (nsrc pb) (nsnk pb). fold (srcs_of pb) (snks_of pb).
+  change (zsum (dem_f pb) (srcs_of pb) <= zsum (cap_f pb) (snks_of pb)).
+  rewrite (zsum_ext (dem_f pb) (sent (snks_of pb) x)) by (intros i Hi; symmetry; apply Hs, Hi).
+  unfold sent. rewrite zsum_swap.
+  apply zsum_le. intros j Hj. apply (Hl j Hj).
+Qed.
+
+Lemma ssp_optimal_checked pb x :
+  check_pb pb = true -> (forall j i, 0 <= cost pb j i < INT_MAX) -> ssp pb = Ok x -> pb_optimal pb (plan_f x).
+Proof.
+  intros Hchk Hcost E. apply ssp_optimal; try assumption.
+  exact (feasible_balanced pb _ (ssp_feasible_checked pb x Hchk E)).
+Qed.
